@@ -1299,6 +1299,10 @@ class Interp:
             c = v.content
             return c.length, c.fn
         if isinstance(v, A.Arr) and v.shape and not A.dim_conc(v.shape[0]):
+            if v.ndim == 1:
+                # the positions an iteration visits are inside the array by construction: no index-bounds obligation
+                rd = v.reader()
+                return v.shape[0], (lambda i: rd((i,)))
             return v.shape[0], (lambda i: A.getitem(v, i))
         from .text import TokList
         if isinstance(v, TokList) and not v.concrete():
